@@ -9,6 +9,7 @@ package main
 //       wake-up send (hook H5), the loop woken by another caller, more callers than inCh has capacity.
 
 import (
+	"encoding/binary"
 	"fmt"
 	"math/rand"
 	"os"
@@ -20,6 +21,8 @@ import (
 	"time"
 
 	"github.com/ryogrid/SamehadaDB/lib/samehada"
+	"github.com/ryogrid/SamehadaDB/lib/storage/disk"
+	"verif/harness/internal/iorec"
 	"verif/harness/internal/eng"
 	"verif/harness/internal/trace"
 )
@@ -74,9 +77,47 @@ func rmHist(args []string) error {
 	runtime.GOMAXPROCS(procs)
 	rng := rand.New(rand.NewSource(envSeed()))
 	const nkeys = 8
+	// optionally record the storage-boundary events of the concurrent run (C08 under concurrency): the recording
+	// wrapper's mutex totally orders page writes and log writes
+	var iotw *trace.Writer
+	if p := os.Getenv("VERIF_IOTRACE"); p != "" {
+		iotw, err = trace.New(p)
+		if err != nil {
+			return err
+		}
+		defer iotw.Close()
+	}
 	for w := 0; w < windows; w++ {
 		dbCounter++
-		e, pm := eng.Open(fmt.Sprintf("vrm%d", dbCounter), 2000, false)
+		memKB := 2000
+		if iotw != nil {
+			memKB = 64 + 32*(w%3) // small pools: evictions under concurrency
+			heap := map[int]bool{}
+			iotw.Emit(map[string]interface{}{"ev": "Reset", "memKB": memKB})
+			samehada.VerifWrapDisk = func(d disk.DiskManager, dbName string) disk.DiskManager {
+				rec := iorec.NewRec(d)
+				rec.Hook = func(idx int, op *iorec.Op) {
+					switch op.Kind {
+					case "L":
+						recs, ok := parseLog(op.Data)
+						rj := [][]int{}
+						for _, r := range recs {
+							rj = append(rj, []int{r.Lsn, r.Txn, r.Typ, r.Size, r.Prev})
+							if r.Typ == 9 {
+								heap[r.B] = true
+							}
+						}
+						iotw.Emit(map[string]interface{}{"ev": "WLog", "io": idx, "recs": rj, "parsed": ok, "bytes": len(op.Data)})
+					case "P":
+						lsn := int(int32(binary.LittleEndian.Uint32(op.Data[4:8])))
+						iotw.Emit(map[string]interface{}{"ev": "WPage", "io": idx, "p": int(op.Page), "lsn": lsn, "heap": heap[int(op.Page)]})
+					}
+				}
+				return rec
+			}
+		}
+		e, pm := eng.Open(fmt.Sprintf("vrm%d", dbCounter), memKB, false)
+		samehada.VerifWrapDisk = nil
 		if e == nil {
 			return fmt.Errorf("open: %s", pm)
 		}
